@@ -68,7 +68,7 @@ Definition aff (sh : option string) (f : form) : Prop := Forall (NoDup (A:=key))
 
 (* ... in the term and in every scope inside it *)
 Fixpoint affr (sh : option string) (f : form) : Prop :=
-  aff sh f /\
+  Forall (NoDup (A:=key)) (pnames sh f) /\
   match f with
   | FRecv p c fr k => if pdes sh fr then affr (Some (ident c)) k else affr sh k
   | FCase fr bs => if pdes sh fr then affr_bp bs else affr_bc sh bs
@@ -272,6 +272,7 @@ Section Paths.
 Variable D : tenv.
 Variable F : list fundef.
 Variable teq : sty -> sty -> Prop.
+Hypothesis Hteq : teq_laws D teq.
 Notation typed := (typed D F teq).
 Notation typed_brs_p := (typed_brs_p D F teq).
 Notation typed_brs_c := (typed_brs_c D F teq).
@@ -709,4 +710,196 @@ Lemma affr_subst Δ Γ sh rs s f old new kc A :
   typed Δ (<[ident old := A]> Γ) sh rs s f ->
   ~ In kc (form_chans f) -> affr sh f -> affr sh (subst old new f).
 Proof. intros Ho Hn Hsh Hrs H. eapply (affr_subst_mut Δ old new (ident old) kc A); eauto. Qed.
+
+(* ------------------------------------------------------------------ a self name for the identifier naming the provider *)
+Lemma uname_client_prov Δ Γ sh old y n t :
+  chan old = None -> ident old = y -> Γ !! y = None -> client_ty Δ Γ sh n t ->
+  name_subst old (new_self "") n = n /\ uname (unshadow y sh) n = uname sh n /\
+  pdes sh n = false /\ pdes (unshadow y sh) n = false.
+Proof.
+  intros Ho Hy Hfr Hc. split; [eapply client_ty_subst_id; eauto|].
+  pose proof (client_pdes _ _ _ _ _ Hc) as Hpd.
+  pose proof (client_ty_subst_prov teq Δ Γ sh old y n t Ho Hy Hfr Hc) as Hc'.
+  rewrite (client_ty_subst_id teq Δ Γ sh old (new_self "") y n t Ho Hy Hfr Hc) in Hc'.
+  pose proof (client_pdes _ _ _ _ _ Hc') as Hpd'. split; [|auto].
+  destruct Hc as [Hs [_ Hc]]. destruct Hc' as [_ [_ Hc']]. unfold uname. destruct (chan n); auto.
+  destruct Hc as [Hc _]. destruct Hc' as [Hc' _].
+  by rewrite (prov_ref_false sh n Hs Hc), (prov_ref_false _ n Hs Hc').
+Qed.
+
+Lemma uname_prov_prov sh rs old y n :
+  chan old = None -> ident old = y -> prov_name sh rs n ->
+  uname sh n = [] /\ uname (unshadow y sh) (name_subst old (new_self "") n) = [] /\
+  pdes sh n = true /\ pdes (unshadow y sh) (name_subst old (new_self "") n) = true.
+Proof.
+  intros Ho Hy Hp. pose proof (prov_name_subst_prov D teq Hteq sh rs old y n Ho Hy Hp) as Hp'.
+  destruct (uname_prov _ _ _ Hp). destruct (uname_prov _ _ _ Hp'). auto.
+Qed.
+
+Lemma uname_args_prov Δ Γ sh old y args ps :
+  chan old = None -> ident old = y -> Γ !! y = None -> args_ok teq Δ Γ sh args ps ->
+  flat_map (uname (unshadow y sh)) (map (name_subst old (new_self "")) args) = flat_map (uname sh) args.
+Proof.
+  intros Ho Hy Hfr H. induction H as [|a p args ps [t [_ H1]] H IH]; simpl; auto.
+  rewrite IH. f_equal. destruct (uname_client_prov Δ Γ sh old y a t Ho Hy Hfr H1) as (-> & -> & _). done.
+Qed.
+
+Lemma pnames_subst_prov_mut Δ old y :
+  chan old = None -> ident old = y ->
+  (forall Γ sh rs s f, typed Δ Γ sh rs s f -> Γ !! y = None ->
+     pnames (unshadow y sh) (subst old (new_self "") f) = pnames sh f /\
+     (affr sh f -> affr (unshadow y sh) (subst old (new_self "") f))) /\
+  (forall Γ rs bs b, typed_brs_p Δ Γ rs bs b -> Γ !! y = None ->
+     pnames_bp (subst_brs old (new_self "") b) = pnames_bp b /\
+     (affr_bp b -> affr_bp (subst_brs old (new_self "") b))) /\
+  (forall Γ sh rs s bs b, typed_brs_c Δ Γ sh rs s bs b -> Γ !! y = None ->
+     pnames_bc (unshadow y sh) (subst_brs old (new_self "") b) = pnames_bc sh b /\
+     (affr_bc sh b -> affr_bc (unshadow y sh) (subst_brs old (new_self "") b))).
+Proof.
+  intros Ho Hy.
+  assert (Hcl : forall Γ sh n t, Γ !! y = None -> client_ty Δ Γ sh n t ->
+     name_subst old (new_self "") n = n /\ uname (unshadow y sh) n = uname sh n /\
+     pdes sh n = false /\ pdes (unshadow y sh) n = false)
+    by (intros; eapply uname_client_prov; eauto).
+  assert (Hpr : forall sh rs n, prov_name sh rs n ->
+     uname sh n = [] /\ uname (unshadow y sh) (name_subst old (new_self "") n) = [] /\
+     pdes sh n = true /\ pdes (unshadow y sh) (name_subst old (new_self "") n) = true)
+    by (intros; eapply uname_prov_prov; eauto).
+  Local Ltac fin :=
+    match goal with
+    | |- ?L = ?R /\ _ =>
+      let E := fresh "E" in
+      assert (E : L = R); [|split; [exact E|]; let Ha := fresh "Ha" in let Hr := fresh "Hr" in
+                            intros [Ha Hr]; split; [unfold aff in *; simpl in *; first [exact Ha|rewrite E; exact Ha]|]]
+    end.
+  apply typed_mutind.
+  - (* SendP *) intros Γ sh rs s to pay cont A0 B m Hp Hw Hc1 Hc2 Hfr; simpl.
+    destruct (Hpr _ _ _ Hp) as (E1 & E2 & _). destruct (Hcl _ _ _ _ Hfr Hc1) as (-> & E3 & _). destruct (Hcl _ _ _ _ Hfr Hc2) as (-> & E4 & _).
+    fin; [by rewrite E1, E2, E3, E4|exact I].
+  - (* SendC *) intros Γ sh rs s to pay cont T A0 B m Hc1 Hw Hc2 Hp Ht Hfr; simpl.
+    destruct (Hpr _ _ _ Hp) as (E1 & E2 & _). destruct (Hcl _ _ _ _ Hfr Hc1) as (-> & E3 & _). destruct (Hcl _ _ _ _ Hfr Hc2) as (-> & E4 & _).
+    fin; [by rewrite E1, E2, E3, E4|exact I].
+  - (* RecvP *) intros Γ sh rs s pay cont from k A0 B m Hp Hw Hbp Hbc Hne Hk IH Hfr; simpl.
+    destruct (Hpr _ _ _ Hp) as (_ & _ & P1 & P2). rewrite P1, P2.
+    rewrite (binder_eqb pay old), (binder_eqb cont old) by (try apply Hbp; try apply Hbc; auto). rewrite Hy.
+    destruct (String.eqb (ident pay) y) eqn:E1; simpl; [fin; [done|exact Hr]|].
+    destruct (String.eqb (ident cont) y) eqn:E2; simpl; [fin; [done|exact Hr]|].
+    apply String.eqb_neq in E1, E2.
+    destruct IH as [IH1 IH2]; [rewrite lookup_insert_ne by auto; apply lookup_del_none; auto|].
+    rewrite (unshadow_other y (Some (ident cont))) in IH1, IH2 by congruence.
+    fin; [by rewrite IH1|by apply IH2].
+  - (* RecvC *) intros Γ sh rs s pay cont from k T A0 B m Hc Hw Hbp Hbc Hne Hs1 Hs2 Hk IH Hfr; simpl.
+    destruct (Hcl _ _ _ _ Hfr Hc) as (-> & E0 & P1 & P2). rewrite P1, P2, E0.
+    rewrite (binder_eqb pay old), (binder_eqb cont old) by (try apply Hbp; try apply Hbc; auto). rewrite Hy.
+    destruct (String.eqb (ident pay) y) eqn:E1; simpl.
+    { apply String.eqb_eq in E1. rewrite (unshadow_other y sh) by congruence. fin; [done|exact Hr]. }
+    destruct (String.eqb (ident cont) y) eqn:E2; simpl.
+    { apply String.eqb_eq in E2. rewrite (unshadow_other y sh) by congruence. fin; [done|exact Hr]. }
+    apply String.eqb_neq in E1, E2.
+    destruct IH as [IH1 IH2]; [rewrite !lookup_insert_ne; auto|].
+    fin; [by rewrite IH1|by apply IH2].
+  - (* SelP *) intros Γ sh rs s to l cont bs m A0 Hp Hw Hfb Hc Hfr; simpl.
+    destruct (Hpr _ _ _ Hp) as (E1 & E2 & _). destruct (Hcl _ _ _ _ Hfr Hc) as (-> & E3 & _).
+    fin; [by rewrite E1, E2, E3|exact I].
+  - (* SelC *) intros Γ sh rs s to l cont T bs m A0 Hc Hw Hfb Hp Ht Hfr; simpl.
+    destruct (Hpr _ _ _ Hp) as (E1 & E2 & _). destruct (Hcl _ _ _ _ Hfr Hc) as (-> & E3 & _).
+    fin; [by rewrite E1, E2, E3|exact I].
+  - (* CaseP *) intros Γ sh rs s from b bs m Hp Hw Hcov Hb IH Hfr; simpl.
+    destruct (Hpr _ _ _ Hp) as (_ & _ & P1 & P2). rewrite P1, P2. destruct (IH Hfr) as [IH1 IH2].
+    fin; [by rewrite IH1|by apply IH2].
+  - (* CaseC *) intros Γ sh rs s from b T bs m Hc Hw Hcov Hb IH Hfr; simpl.
+    destruct (Hcl _ _ _ _ Hfr Hc) as (-> & E0 & P1 & P2). rewrite P1, P2, E0. destruct (IH Hfr) as [IH1 IH2].
+    fin; [by rewrite IH1|by apply IH2].
+  - (* New *) intros Γ sh rs s x body k A0 Hb Hs1 Hbody IHb Hk IHk Hfr; simpl.
+    rewrite (binder_eqb x old) by (try apply Hb; auto). rewrite Hy.
+    destruct (IHb Hfr) as [IHb1 IHb2]. change (unshadow y None) with (@None string) in IHb1, IHb2.
+    destruct (String.eqb (ident x) y) eqn:E1; simpl.
+    { apply String.eqb_eq in E1. rewrite (unshadow_other y sh) by congruence.
+      fin; [by rewrite IHb1|]. destruct Hr as [Hr1 Hr2]. split; [by apply IHb2|exact Hr2]. }
+    apply String.eqb_neq in E1.
+    destruct IHk as [IHk1 IHk2]; [rewrite lookup_insert_ne; auto|].
+    fin; [by rewrite IHb1, IHk1|]. destruct Hr as [Hr1 Hr2]. split; [by apply IHb2|by apply IHk2].
+  - (* Close *) intros Γ sh rs s c m Hp Hw Hfr; simpl.
+    destruct (Hpr _ _ _ Hp) as (E1 & E2 & _). fin; [by rewrite E1, E2|exact I].
+  - (* Wait *) intros Γ sh rs s c k T m Hc Hw Hk IH Hfr; simpl.
+    destruct (Hcl _ _ _ _ Hfr Hc) as (-> & E0 & _). destruct (IH Hfr) as [IH1 IH2].
+    fin; [by rewrite E0, IH1|by apply IH2].
+  - (* Fwd *) intros Γ sh rs s to from d Hp Hc Hfr; simpl.
+    destruct (Hpr _ _ _ Hp) as (E1 & E2 & _). destruct (Hcl _ _ _ _ Hfr Hc) as (-> & E3 & _).
+    fin; [by rewrite E1, E2, E3|exact I].
+  - (* Drop *) intros Γ sh rs s c k T Hc Hk IH Hfr; simpl.
+    destruct (Hcl _ _ _ _ Hfr Hc) as (-> & E0 & _). destruct (IH Hfr) as [IH1 IH2].
+    fin; [by rewrite E0, IH1|by apply IH2].
+  - (* Call *) intros Γ sh rs s fn args pt fd tf Hg Hf Ht Hargs Hfr; simpl.
+    fin; [|exact I]. f_equal.
+    destruct Hargs as [[Hl Ha]|[a0 [rest [-> [Hl [Hp Ha]]]]]]; [eapply uname_args_prov; eauto|].
+    simpl. destruct (Hpr _ _ _ Hp) as (E1 & E2 & _). rewrite E1, E2. simpl. eapply uname_args_prov; eauto.
+  - (* CastP *) intros Γ sh rs s to cont fm tm A0 Hp Hw Hc Hfr; simpl.
+    destruct (Hpr _ _ _ Hp) as (E1 & E2 & _). destruct (Hcl _ _ _ _ Hfr Hc) as (-> & E3 & _).
+    fin; [by rewrite E1, E2, E3|exact I].
+  - (* CastC *) intros Γ sh rs s to cont T fm tm A0 Hc Hw Hp Ht Hfr; simpl.
+    destruct (Hpr _ _ _ Hp) as (E1 & E2 & _). destruct (Hcl _ _ _ _ Hfr Hc) as (-> & E3 & _).
+    fin; [by rewrite E1, E2, E3|exact I].
+  - (* ShiftP *) intros Γ sh rs s x from k fm tm A0 Hp Hw Hb Hk IH Hfr; simpl.
+    destruct (Hpr _ _ _ Hp) as (_ & _ & P1 & P2). rewrite P1, P2.
+    rewrite (binder_eqb x old) by (try apply Hb; auto). rewrite Hy.
+    destruct (String.eqb (ident x) y) eqn:E1; simpl; [fin; [done|exact Hr]|].
+    apply String.eqb_neq in E1.
+    destruct IH as [IH1 IH2]; [apply lookup_del_none; auto|].
+    rewrite (unshadow_other y (Some (ident x))) in IH1, IH2 by congruence.
+    fin; [by rewrite IH1|by apply IH2].
+  - (* ShiftC *) intros Γ sh rs s x from k T fm tm A0 Hc Hw Hb Hs1 Hk IH Hfr; simpl.
+    destruct (Hcl _ _ _ _ Hfr Hc) as (-> & E0 & P1 & P2). rewrite P1, P2, E0.
+    rewrite (binder_eqb x old) by (try apply Hb; auto). rewrite Hy.
+    destruct (String.eqb (ident x) y) eqn:E1; simpl.
+    { apply String.eqb_eq in E1. rewrite (unshadow_other y sh) by congruence. fin; [done|exact Hr]. }
+    apply String.eqb_neq in E1.
+    destruct IH as [IH1 IH2]; [rewrite lookup_insert_ne; auto|].
+    fin; [by rewrite IH1|by apply IH2].
+  - (* Split *) intros Γ sh rs s x y0 from k T Hc Hbx Hby Hne Hs1 Hs2 Hk IH Hfr; simpl.
+    destruct (Hcl _ _ _ _ Hfr Hc) as (-> & E0 & _). rewrite E0.
+    rewrite (binder_eqb x old), (binder_eqb y0 old) by (try apply Hbx; try apply Hby; auto). rewrite Hy.
+    destruct (String.eqb (ident x) y) eqn:E1; simpl.
+    { apply String.eqb_eq in E1. rewrite (unshadow_other y sh) by congruence. fin; [done|exact Hr]. }
+    destruct (String.eqb (ident y0) y) eqn:E2; simpl.
+    { apply String.eqb_eq in E2. rewrite (unshadow_other y sh) by congruence. fin; [done|exact Hr]. }
+    apply String.eqb_neq in E1, E2.
+    destruct IH as [IH1 IH2]; [rewrite !lookup_insert_ne; auto|].
+    fin; [by rewrite IH1|by apply IH2].
+  - (* Print *) intros Γ sh rs s l k Hk IH Hfr; simpl. destruct (IH Hfr) as [IH1 IH2].
+    fin; [exact IH1|by apply IH2].
+  - (* brs_p nil *) intros; simpl. auto.
+  - (* brs_p cons *) intros Γ rs bs l pay k r A0 Hf Hb Hk IHk Hr IHr Hfr; simpl.
+    rewrite (binder_eqb pay old) by (try apply Hb; auto). rewrite Hy. destruct (IHr Hfr) as [IHr1 IHr2].
+    destruct (String.eqb (ident pay) y) eqn:E1; simpl.
+    { split; [by rewrite IHr1|]. intros [H1 H2]. split; [exact H1|by apply IHr2]. }
+    apply String.eqb_neq in E1.
+    destruct IHk as [IHk1 IHk2]; [apply lookup_del_none; auto|].
+    rewrite (unshadow_other y (Some (ident pay))) in IHk1, IHk2 by congruence.
+    split; [by rewrite IHk1, IHr1|]. intros [H1 H2]. split; [by apply IHk2|by apply IHr2].
+  - (* brs_c nil *) intros; simpl. auto.
+  - (* brs_c cons *) intros Γ sh rs s bs l pay k r A0 Hf Hb Hs1 Hk IHk Hr IHr Hfr; simpl.
+    rewrite (binder_eqb pay old) by (try apply Hb; auto). rewrite Hy. destruct (IHr Hfr) as [IHr1 IHr2].
+    destruct (String.eqb (ident pay) y) eqn:E1; simpl.
+    { apply String.eqb_eq in E1. rewrite (unshadow_other y sh) in * by congruence.
+      split; [by rewrite IHr1|]. intros [H1 H2]. split; [exact H1|by apply IHr2]. }
+    apply String.eqb_neq in E1.
+    destruct IHk as [IHk1 IHk2]; [rewrite lookup_insert_ne; auto|].
+    split; [by rewrite IHk1, IHr1|]. intros [H1 H2]. split; [by apply IHk2|by apply IHr2].
+Qed.
+
+(* the binder of a receive / case / shift on self fires *)
+Lemma pnames_subst_shadow Δ Γ rs s f old :
+  chan old = None -> Γ !! ident old = None -> typed Δ Γ (Some (ident old)) rs s f ->
+  pnames None (subst old (new_self "") f) = pnames (Some (ident old)) f /\
+  (affr (Some (ident old)) f -> affr None (subst old (new_self "") f)).
+Proof.
+  intros Ho Hfr H. pose proof (proj1 (pnames_subst_prov_mut Δ old (ident old) Ho eq_refl) _ _ _ _ _ H Hfr) as H'.
+  unfold unshadow in H'. rewrite decide_True in H' by auto. exact H'.
+Qed.
+(* the explicit provider of a function is instantiated at a call *)
+Lemma pnames_subst_explicit Δ Γ rs s f old :
+  chan old = None -> Γ !! ident old = None -> typed Δ Γ None rs s f ->
+  pnames None (subst old (new_self "") f) = pnames None f /\ (affr None f -> affr None (subst old (new_self "") f)).
+Proof. intros Ho Hfr H. exact (proj1 (pnames_subst_prov_mut Δ old (ident old) Ho eq_refl) _ _ _ _ _ H Hfr). Qed.
 End Paths.
